@@ -86,6 +86,10 @@ impl Debug for AbsoluteTime {
 
 #[cfg(not(test))]
 pub fn now_monotonic() -> std::time::Instant {
+    #[cfg(it4innovations_hyperqueue_verif)]
+    if let Some(now) = crate::verif::autoalloc::mocked_now() {
+        return now;
+    }
     std::time::Instant::now()
 }
 
